@@ -19,6 +19,10 @@ type prop struct {
 	dim    int
 	metric string
 	quant  *N
+	// parameter blocks of OTHER index types next to the block of the declared type
+	// (IndexSchemaValue.Validate only looks at the declared type's block: such a schema is accepted
+	// and stored as it is; whatever reads the schema later must go by the type)
+	stray []KV
 }
 
 type colSpec struct {
@@ -28,6 +32,52 @@ type colSpec struct {
 }
 
 func (p prop) schemaValue() *N {
+	v := p.declaredValue()
+	for _, kv := range p.stray {
+		if v.Get(kv.K) == nil {
+			v.O = append(v.O, KV{kv.K, kv.V.Clone()})
+		}
+	}
+	return v
+}
+
+// a parameter block for index type `kind` (used as a stray block): mostly well-formed, sometimes with
+// values its own Validate() would refuse (nobody validates it)
+func (g *gen) paramBlock(kind string, dim int) *N {
+	if g.r.Chance(25) {
+		dim = vh.Pick(g.r, []int{0, 1, 2, 3, 4, 5, 4097})
+	}
+	switch kind {
+	case "vectorFlat":
+		return Obj("vectorSize", Int(int64(dim)), "distanceMetric", Str(vh.Pick(g.r, []string{"euclidean", "cosine", "dot", "nosuch"})))
+	case "vectorVamana":
+		return Obj("vectorSize", Int(int64(dim)), "distanceMetric", Str(vh.Pick(g.r, []string{"euclidean", "cosine", "dot"})), "searchSize", Int(int64(vh.Pick(g.r, []int{75, 75, 0}))), "degreeBound", Int(64), "alpha", Flt32(1.2))
+	case "text":
+		return Obj("analyser", Str(vh.Pick(g.r, []string{"standard", "nosuch"})))
+	default: // string, stringArray
+		return Obj("caseSensitive", Bool(g.r.Bool()))
+	}
+}
+
+var blockKinds = []string{"vectorFlat", "vectorVamana", "text", "string", "stringArray"}
+
+func (g *gen) strayBlocks(p prop) []KV {
+	var out []KV
+	for k := 0; k < 1+g.r.Intn(2); k++ {
+		kind := vh.Pick(g.r, blockKinds)
+		if kind == p.kind {
+			continue
+		}
+		dim := p.dim
+		if dim == 0 {
+			dim = vh.Pick(g.r, []int{2, 3, 4})
+		}
+		out = append(out, KV{kind, g.paramBlock(kind, dim)})
+	}
+	return out
+}
+
+func (p prop) declaredValue() *N {
 	switch p.kind {
 	case "vectorFlat":
 		o := Obj("vectorSize", Int(int64(p.dim)), "distanceMetric", Str(p.metric))
@@ -90,6 +140,16 @@ var baseCols = []colSpec{
 		{path: "vector", kind: "vectorVamana", dim: 2, metric: "euclidean"},
 		{path: "metadata", kind: "vectorFlat", dim: 3, metric: "euclidean"},
 	}},
+	// created through v2; every entry carries parameter blocks of other types than the declared one:
+	// "vector" is a flat index with a vamana block beside it (the v1 API reads IndexSchema["vector"]),
+	// "w" a vamana index with a flat block of another dimension, the inverted indexes carry vector / text blocks
+	{user: "alice", plan: "BASIC", id: "stray", props: []prop{
+		{path: "vector", kind: "vectorFlat", dim: 3, metric: "euclidean", stray: []KV{{"vectorVamana", Obj("vectorSize", Int(3), "distanceMetric", Str("euclidean"), "searchSize", Int(75), "degreeBound", Int(64), "alpha", Flt32(1.2))}}},
+		{path: "w", kind: "vectorVamana", dim: 2, metric: "euclidean", stray: []KV{{"vectorFlat", Obj("vectorSize", Int(5), "distanceMetric", Str("cosine"))}, {"text", Obj("analyser", Str("standard"))}}},
+		{path: "metadata", kind: "string", stray: []KV{{"vectorFlat", Obj("vectorSize", Int(2), "distanceMetric", Str("euclidean"))}, {"stringArray", Obj("caseSensitive", Bool(true))}}},
+		{path: "n", kind: "integer", stray: []KV{{"vectorVamana", Obj("vectorSize", Int(4), "distanceMetric", Str("dot"), "searchSize", Int(75), "degreeBound", Int(64), "alpha", Flt32(1.2))}, {"string", Obj("caseSensitive", Bool(false))}}},
+		{path: "t", kind: "text", stray: []KV{{"vectorFlat", Obj("vectorSize", Int(1), "distanceMetric", Str("euclidean"))}}},
+	}},
 	{user: "bob", plan: "TINY", id: "tiny", props: []prop{
 		{path: "k", kind: "integer"},
 		{path: "v", kind: "vectorFlat", dim: 2, metric: "euclidean"},
@@ -105,6 +165,11 @@ var baseCols = []colSpec{
 
 type gen struct {
 	r *vh.Rng
+	// recording of the query under construction (see qleaf)
+	rec    bool
+	leaves []qleaf
+	parent *N
+	host   *N
 }
 
 func (g *gen) uuid() string {
@@ -189,6 +254,48 @@ func (g *gen) point(c *colSpec, withID bool) *N {
 	return pt
 }
 
+// violatePoints breaks ONE point of a batch (any position, the others stay valid) against the schema: an
+// indexed vector of the wrong length (top level or under a nested path), a value of the wrong type
+// under an indexed path, a nested path running through a scalar
+func (g *gen) violatePoints(c *colSpec, pts *N) string {
+	if len(pts.A) == 0 || len(c.props) == 0 {
+		return ""
+	}
+	// some valid company first
+	for len(pts.A) < 3 && g.r.Chance(60) {
+		pts.A = append(pts.A, g.point(c, true))
+	}
+	pt := pts.A[g.r.Intn(len(pts.A))]
+	if pt.K != 'o' {
+		return ""
+	}
+	p := vh.Pick(g.r, c.props)
+	switch {
+	case (p.kind == "vectorFlat" || p.kind == "vectorVamana") && g.r.Chance(70):
+		v := g.propValue(p)
+		g.resize(v, vh.Pick(g.r, []int{p.dim + 1, p.dim + 1, max(p.dim-1, 0), 1, 2 * p.dim}))
+		setPath(pt, p.path, v)
+		return "sem:stored-vector-len"
+	case strings.Contains(p.path, ".") && g.r.Bool():
+		pt.Set(strings.SplitN(p.path, ".", 2)[0], vh.Pick(g.r, []*N{Str("scalar"), Int(3), Arr(Int(1))}))
+		return "sem:nested-through-scalar"
+	default:
+		var v *N
+		switch p.kind {
+		case "integer", "float":
+			v = Str("12")
+		case "stringArray":
+			v = vh.Pick(g.r, []*N{Str("one"), Arr(Str("a"), Int(1))})
+		case "vectorFlat", "vectorVamana":
+			v = vh.Pick(g.r, []*N{Str("vector"), Arr(Str("a")), Arr(Arr(Flt32(1)))})
+		default:
+			v = vh.Pick(g.r, []*N{Int(7), Arr(Str("a")), Obj("a", Str("b"))})
+		}
+		setPath(pt, p.path, v)
+		return "sem:indexed-value-type"
+	}
+}
+
 func (g *gen) v1Point(c *colSpec, withID bool) *N {
 	pt := Obj("vector", g.vec(c.props[0].dim))
 	if withID {
@@ -205,14 +312,33 @@ func (g *gen) v1Point(c *colSpec, withID bool) *N {
 	return pt
 }
 
+// an EXECUTED leaf of the query being generated (indexManager.Search dispatches on the property
+// name: `_and` runs the `_and` list, `_or` the `_or` list, a vector / text leaf runs its filter first)
+type qleaf struct {
+	node   *N   // the query object {"property": ..., "<type>": {...}}
+	p      prop // the indexed property it addresses
+	parent *N   // the composite node whose executed list holds it (nil: top level or a filter)
+	host   *N   // the options object whose "filter" it is (nil otherwise)
+}
+
 func (g *gen) leaf(c *colSpec, p prop, depth int) *N {
 	q := Obj("property", Str(p.path))
+	if g.rec {
+		g.leaves = append(g.leaves, qleaf{node: q, p: p, parent: g.parent, host: g.host})
+	}
+	filter := func(o *N) {
+		if depth < 3 && g.r.Chance(35) {
+			sp, sh := g.parent, g.host
+			g.parent, g.host = nil, o
+			// mostly a pure filter; sometimes a ranking query (vector / text) serves as the filter
+			o.Set("filter", g.query(c, depth+1, !g.r.Chance(15)))
+			g.parent, g.host = sp, sh
+		}
+	}
 	switch p.kind {
 	case "vectorFlat":
 		o := Obj("vector", g.propValue(p), "operator", Str("near"), "limit", Int(int64(1+g.r.Intn(75))))
-		if depth < 2 && g.r.Chance(30) {
-			o.Set("filter", g.query(c, depth+1, true))
-		}
+		filter(o)
 		if g.r.Chance(30) {
 			o.Set("weight", Flt32(float32(g.r.Intn(20))/10))
 		}
@@ -224,25 +350,30 @@ func (g *gen) leaf(c *colSpec, p prop, depth int) *N {
 			ss = 25
 		}
 		o := Obj("vector", g.propValue(p), "operator", Str("near"), "searchSize", Int(ss), "limit", Int(lim))
-		if depth < 2 && g.r.Chance(30) {
-			o.Set("filter", g.query(c, depth+1, true))
-		}
+		filter(o)
 		q.Set("vectorVamana", o)
 	case "text":
 		o := Obj("value", Str(g.word()+" "+g.word()), "operator", Str(vh.Pick(g.r, []string{"containsAll", "containsAny"})), "limit", Int(int64(1+g.r.Intn(75))))
-		if depth < 2 && g.r.Chance(30) {
-			o.Set("filter", g.query(c, depth+1, true))
-		}
+		filter(o)
 		q.Set("text", o)
+	default:
+		q.Set(p.kind, g.plainOpts(p.kind))
+	}
+	return q
+}
+
+// options of the inverted index types (no nested query inside)
+func (g *gen) plainOpts(kind string) *N {
+	switch kind {
 	case "string":
 		op := vh.Pick(g.r, []string{"equals", "notEquals", "startsWith", "greaterThan", "greaterThanOrEquals", "lessThan", "lessThanOrEquals", "inRange"})
 		o := Obj("value", Str("b"+g.word()), "operator", Str(op))
 		if op == "inRange" {
 			o.Set("endValue", Str("z"+g.word()))
 		}
-		q.Set("string", o)
+		return o
 	case "stringArray":
-		q.Set("stringArray", Obj("value", Arr(Str(g.word()), Str(g.word())), "operator", Str(vh.Pick(g.r, []string{"containsAll", "containsAny"}))))
+		return Obj("value", Arr(Str(g.word()), Str(g.word())), "operator", Str(vh.Pick(g.r, []string{"containsAll", "containsAny"})))
 	case "integer":
 		op := vh.Pick(g.r, []string{"equals", "notEquals", "greaterThan", "greaterThanOrEquals", "lessThan", "lessThanOrEquals", "inRange"})
 		v := int64(g.r.Intn(100))
@@ -250,7 +381,7 @@ func (g *gen) leaf(c *colSpec, p prop, depth int) *N {
 		if op == "inRange" {
 			o.Set("endValue", Int(v+1+int64(g.r.Intn(50))))
 		}
-		q.Set("integer", o)
+		return o
 	default:
 		op := vh.Pick(g.r, []string{"equals", "notEquals", "greaterThan", "greaterThanOrEquals", "lessThan", "lessThanOrEquals", "inRange"})
 		v := float64(g.r.Intn(10000)) / 100
@@ -258,9 +389,8 @@ func (g *gen) leaf(c *colSpec, p prop, depth int) *N {
 		if op == "inRange" {
 			o.Set("endValue", Flt(v+0.5+float64(g.r.Intn(50))))
 		}
-		q.Set("float", o)
+		return o
 	}
-	return q
 }
 
 func (g *gen) query(c *colSpec, depth int, filterOnly bool) *N {
@@ -283,22 +413,225 @@ func (g *gen) query(c *colSpec, depth int, filterOnly bool) *N {
 		}
 		return Obj("property", Str("_id"), "string", Obj("value", ids.A[0], "operator", Str("equals")))
 	}
-	if depth < 2 && g.r.Chance(30) {
+	var q *N
+	if depth < 3 && g.r.Chance(30) {
 		k := vh.Pick(g.r, []string{"_and", "_or"})
 		subs := &N{K: 'a'}
+		q = Obj("property", Str(k), k, subs)
+		sp, sh := g.parent, g.host
+		g.parent, g.host = q, nil
 		for i := 0; i < 1+g.r.Intn(3); i++ {
 			subs.A = append(subs.A, g.query(c, depth+1, filterOnly))
 		}
-		return Obj("property", Str(k), k, subs)
+		g.parent, g.host = sp, sh
+	} else {
+		q = g.leaf(c, vh.Pick(g.r, cands), depth)
 	}
-	return g.leaf(c, vh.Pick(g.r, cands), depth)
+	if g.rec && g.r.Chance(12) {
+		g.decorate(c, q)
+	}
+	return q
+}
+
+// decorate adds structure to a query node that is well-formed in itself (Query.Validate looks at every
+// block and both lists) but that the execution never looks at: option blocks of types other than the
+// one the property's index has, an `_or` list on an `_and` node and vice versa, lists on a leaf. The
+// dormant sub-queries may violate the schema (wrong vector length, property without an index): nobody
+// runs them, so they must not decide anything.
+func (g *gen) decorate(c *colSpec, q *N) string {
+	rec, sp, sh := g.rec, g.parent, g.host
+	g.rec, g.parent, g.host = false, nil, nil
+	defer func() { g.rec, g.parent, g.host = rec, sp, sh }()
+	dormant := func() *N {
+		sub := g.query(c, 3, g.r.Bool())
+		if g.r.Chance(40) {
+			if o := vecOpts(sub); o != nil {
+				g.resize(o.Get("vector"), len(o.Get("vector").A)+1)
+			} else if g.r.Bool() {
+				sub.Set("property", Str("nosuch"))
+			}
+		}
+		return sub
+	}
+	prop := ""
+	if pn := q.Get("property"); pn != nil {
+		prop = pn.S
+	}
+	composite := prop == "_and" || prop == "_or"
+	switch k := g.r.Intn(3); {
+	case k == 0 || (composite && k == 1):
+		other := "_and"
+		if prop == "_and" || (prop != "_or" && g.r.Bool()) {
+			other = "_or"
+		}
+		if q.Get(other) != nil {
+			return ""
+		}
+		subs := &N{K: 'a'}
+		for i := 0; i < 1+g.r.Intn(2); i++ {
+			subs.A = append(subs.A, dormant())
+		}
+		// before or after the live entries: a decoder or a validator that goes by position or by
+		// "whichever is there" shows
+		if g.r.Bool() {
+			q.O = append(q.O, KV{other, subs})
+		} else {
+			q.O = append([]KV{{other, subs}}, q.O...)
+		}
+		return "dormant-" + other
+	default:
+		kind := vh.Pick(g.r, []string{"vectorFlat", "vectorVamana", "text", "string", "stringArray", "integer", "float"})
+		if q.Get(kind) != nil {
+			return ""
+		}
+		var o *N
+		switch kind {
+		case "vectorFlat":
+			o = Obj("vector", g.vec(1+g.r.Intn(5)), "operator", Str("near"), "limit", Int(int64(1+g.r.Intn(75))))
+		case "vectorVamana":
+			o = Obj("vector", g.vec(1+g.r.Intn(5)), "operator", Str("near"), "searchSize", Int(75), "limit", Int(int64(1+g.r.Intn(75))))
+		case "text":
+			o = Obj("value", Str(g.word()), "operator", Str("containsAny"), "limit", Int(int64(1+g.r.Intn(75))))
+		default:
+			o = g.plainOpts(kind)
+		}
+		if (kind == "vectorFlat" || kind == "vectorVamana" || kind == "text") && g.r.Chance(30) {
+			o.Set("filter", dormant())
+		}
+		q.O = append(q.O, KV{kind, o})
+		return "dormant-" + kind
+	}
+}
+
+// the vector options object of a vector leaf (nil for other nodes)
+func vecOpts(q *N) *N {
+	for _, k := range []string{"vectorFlat", "vectorVamana"} {
+		if o := q.Get(k); o != nil && o.K == 'o' && o.Get("vector") != nil && o.Get("vector").K == 'a' {
+			return o
+		}
+	}
+	return nil
+}
+
+// violate breaks ONE executed leaf of the generated query against the schema or the documented limits
+// and, more often than not, surrounds the broken place with more valid structure (a valid filter on the
+// broken leaf, dormant lists / blocks on it and on the composite node above it). Returns the mutation name.
+func (g *gen) violate(c *colSpec) string {
+	if len(g.leaves) == 0 {
+		return ""
+	}
+	l := vh.Pick(g.r, g.leaves)
+	q, p := l.node, l.p
+	isVec := p.kind == "vectorFlat" || p.kind == "vectorVamana"
+	opts := q.Get(p.kind)
+	kind := ""
+	switch w := g.r.Intn(100); {
+	case isVec && w < 45 && opts != nil:
+		dim := len(opts.Get("vector").A)
+		nl := vh.Pick(g.r, []int{dim - 1, dim + 1, dim + 1, 1, 2 * dim, dim + 7})
+		if nl == dim || nl < 1 {
+			nl = dim + 1
+		}
+		g.resize(opts.Get("vector"), nl)
+		kind = "vector-len"
+	case w < 60:
+		q.Set("property", Str(vh.Pick(g.r, []string{"nosuch", "note", "extra.n", "meta", "geo", p.path + ".x", p.path + "x", strings.ToUpper(p.path)})))
+		kind = "unindexed-property"
+	case w < 75 && opts != nil:
+		// the options of another index type instead of the ones this property's index takes
+		var others []string
+		for _, k := range []string{"vectorFlat", "vectorVamana", "text", "string", "stringArray", "integer", "float"} {
+			if k != p.kind {
+				others = append(others, k)
+			}
+		}
+		nk := vh.Pick(g.r, others)
+		q.Del(p.kind)
+		switch {
+		case isVec && (nk == "vectorFlat" || nk == "vectorVamana"):
+			if nk == "vectorVamana" {
+				opts.Set("searchSize", Int(75))
+			}
+			q.Set(nk, opts)
+		case nk == "vectorFlat":
+			q.Set(nk, Obj("vector", g.vec(3), "operator", Str("near"), "limit", Int(5)))
+		case nk == "vectorVamana":
+			q.Set(nk, Obj("vector", g.vec(3), "operator", Str("near"), "searchSize", Int(75), "limit", Int(5)))
+		case nk == "text":
+			q.Set(nk, Obj("value", Str(g.word()), "operator", Str("containsAny"), "limit", Int(5)))
+		default:
+			q.Set(nk, g.plainOpts(nk))
+		}
+		kind = "options-of-other-type"
+	case w < 85:
+		// another indexed property, of another type, under the same options
+		var others []prop
+		for _, o := range c.props {
+			if o.kind != p.kind {
+				others = append(others, o)
+			}
+		}
+		if len(others) == 0 {
+			q.Set("property", Str("nosuch"))
+		} else {
+			q.Set("property", Str(vh.Pick(g.r, others).path))
+		}
+		kind = "property-of-other-type"
+	case opts != nil && opts.Get("limit") != nil:
+		switch {
+		case p.kind == "vectorVamana" && g.r.Bool():
+			lim := opts.Get("limit").I
+			if lim > 25 && g.r.Bool() {
+				opts.Set("searchSize", Int(lim-1))
+			} else {
+				opts.Set("searchSize", Int(vh.Pick(g.r, []int64{24, 76, 0})))
+			}
+			kind = "searchSize-range"
+		default:
+			opts.Set("limit", Int(vh.Pick(g.r, []int64{0, 76, -1})))
+			kind = "leaf-limit-range"
+		}
+	case opts != nil:
+		opts.Set("operator", Str(vh.Pick(g.r, []string{"near", "like", "containsAny", "startsWith", "inRange", ""})))
+		kind = "operator-of-other-type"
+	default:
+		q.Set("property", Str("nosuch"))
+		kind = "unindexed-property"
+	}
+	// ---- more valid structure around the broken place
+	if g.r.Chance(65) {
+		rec := g.rec
+		g.rec = false
+		if vo := vecOpts(q); vo != nil && vo.Get("filter") == nil && g.r.Chance(60) {
+			vo.Set("filter", g.query(c, 2, true))
+			kind += "+filter"
+		} else if to := q.Get("text"); to != nil && to.K == 'o' && to.Get("filter") == nil && g.r.Chance(60) {
+			to.Set("filter", g.query(c, 2, true))
+			kind += "+filter"
+		}
+		if l.parent != nil && g.r.Chance(60) {
+			if d := g.decorate(c, l.parent); d != "" {
+				kind += "+parent-" + d
+			}
+		}
+		if g.r.Chance(25) {
+			if d := g.decorate(c, q); d != "" {
+				kind += "+" + d
+			}
+		}
+		g.rec = rec
+	}
+	return kind
 }
 
 var selectPool = []string{"extra", "extra.l", "extra.l.0", "extra.l.1", "extra.l.x", "extra.l.*", "extra.n", "extra.n.x", "note", "note.x", "tags.0", "tags.x", "vec.0", "vec.*", "size.x", "price.0",
 	"meta", "meta.kind", "meta.kind.x", "geo", "geo.loc.0", "", ".", "a..b", "*", "nosuch", "nosuch.x", "_id", "vector", "metadata", "metadata.0", "k", "k.0"}
 
 func (g *gen) search(c *colSpec) *N {
-	req := Obj("query", g.query(c, 0, false), "limit", Int(int64(1+g.r.Intn(100))))
+	g.rec, g.leaves, g.parent, g.host = true, nil, nil, nil
+	qn := g.query(c, 0, false)
+	g.rec = false
+	req := Obj("query", qn, "limit", Int(int64(1+g.r.Intn(100))))
 	switch g.r.Intn(5) {
 	case 0:
 		req.Set("select", Arr(Str("*")))
@@ -448,6 +781,24 @@ func (g *gen) mutate(root *N) (kind, path string, jsonOnly, mpOnly bool) {
 			return "key-reserved", path, false, false
 		case 3: // duplicate key, the second occurrence carries another value
 			dup := KV{kv.K, g.anyValue()}
+			if g.r.Bool() {
+				// a near copy: same shape, another length / number (which occurrence wins is the decoder's
+				// business; whichever it is must be the one that gets validated)
+				cp := kv.V.Clone()
+				switch cp.K {
+				case 'a':
+					g.resize(cp, vh.Pick(g.r, []int{len(cp.A) + 1, max(len(cp.A)-1, 0), 1}))
+				case 'i':
+					cp.I = vh.Pick(g.r, intPool)
+				case 's':
+					cp.S = vh.Pick(g.r, strPool)
+				case 'o':
+					if len(cp.O) > 0 {
+						cp.O = cp.O[:len(cp.O)-1]
+					}
+				}
+				dup = KV{kv.K, cp}
+			}
 			if g.r.Bool() {
 				s.parent.O = append(s.parent.O, dup)
 			} else {
